@@ -94,7 +94,14 @@ def run_property(prop, rules_fn, tier='quick', repo=None, overrides=None,
             print(s)
     try:
         ctx = Ctx(prop, tier, repo, overrides, c_overrides)
-        rules_fn(ctx)
+        try:
+            rules_fn(ctx)
+        except AnalysisError as e:
+            # a concrete violation found before the analysis broke is still a violation
+            if all(i['ok'] for i in ctx.instances):
+                raise
+            ctx.note("analysis stopped early: %s" % e)
+            say("note: analysis stopped early after recording violations: %s" % e)
         # vacuity guard (evaluated after the findings: a concrete violation
         # takes precedence over a too-low instance count)
         counts = {}
